@@ -1,6 +1,7 @@
 import Driver.Common
 import GqlModel.SchemaBuild
 import GqlModel.SchemaBuildBridge
+import GqlModel.SchemaLive
 /-! Driver for C11.
 request  `{"config": CFG, "appendOrder": [TREF…], "real": DUMP?}`
 response `{"wf": bool, "outcome": OUTCOME, "real": {"consistent": b, "parts": {...}}?}` where
@@ -267,8 +268,57 @@ def wellFormed (cfg : Config) : Bool :=
     | some d => distinct (d.args.map (·.name)) && d.args.all (fun a => okRef a.type)
     | none => true)
 
+/-! histories (lean/GqlModel/SchemaLive.lean): `"history": [STEP…]` with
+STEP = {"op":"addField","target":id,"field":FIELD} | {"op":"addInputField","target":id,"field":ARG} |
+       {"op":"newSchema"} | {"op":"append","type":TREF} -/
+
+def decStep (j : Json) : Except String HStep := do
+  match ← Driver.getStr j "op" with
+  | "addField" => return .addField (← Driver.getNat j "target") (← decField (← j.getObjVal? "field")) (boolD j "front" false)
+  | "addInputField" =>
+    return .addInputField (← Driver.getNat j "target") (← decArg (← j.getObjVal? "field")) (boolD j "front" false)
+  | "newSchema" => return .newSchema
+  | "append" => return .append (← typeD j "type")
+  | op => throw s!"bad history step {op}"
+
+def encLive (st : Live) : List (String × Json) :=
+  let d := st.dump
+  [("ok", true), ("dump", encDump d), ("consistent", d.Consistent), ("parts", encParts d),
+   ("parked", Json.arr (st.parkedErrs.map (fun p => Json.arr #[encNat p.1, Json.str (encErr p.2)])).toArray)]
+
+def handleHistory (cfg : Config) (steps : List HStep) : Json :=
+  let st0 : Live := { cfg := cfg }
+  let hist := match runHistory st0 0 steps with
+    | .error (k, e) => Json.mkObj [("ok", false), ("err", encErr e), ("failedAt", encNat k),
+        ("assertErrs", Json.arr ((historyAssertErrs st0 steps).map (fun e => Json.str (encErr e))).toArray)]
+    | .ok st => Json.mkObj (encLive st)
+  let upSteps := steps.filter (fun st => match st with | .addField .. => true | .addInputField .. => true | _ => false)
+  let upMore := steps.filterMap (fun st => match st with | .append t => some t | _ => none)
+  let stUp := upSteps.foldl (fun s step => match step with
+    | .addField i f fr => s.addField i f fr
+    | .addInputField i f fr => s.addInputField i f fr
+    | _ => s) st0
+  let up := match upfront st0 steps with
+    | .error e => Json.mkObj [("ok", false), ("err", encErr e),
+        ("assertErrs", Json.arr ((match newSchemaTM stUp.cfg upMore with
+          | .ok tm => stUp.finishErrs tm
+          | .error _ => []).map (fun e => Json.str (encErr e))).toArray)]
+    | .ok st => Json.mkObj (encLive st)
+  Json.mkObj [("wf", wellFormed cfg), ("hist", hist), ("upfront", up),
+    ("mutatesRegistered", mutatesRegistered st0 steps)]
+
 def handle (j : Json) : Except String Json := do
   let cfg ← decConfig (← j.getObjVal? "config")
+  match j.getObjVal? "history" with
+  | .ok (.arr steps) => do
+    let hs ← steps.toList.mapM decStep
+    let real ← match Driver.getOpt j "real" with
+      | none => pure Json.null
+      | some r => do
+        let d ← decDump r
+        pure (Json.mkObj [("consistent", d.Consistent), ("parts", encParts d)])
+    return (handleHistory cfg hs).setObjVal! "real" real
+  | _ =>
   let order ← (arrD j "appendOrder").mapM decTRef
   let real ← match Driver.getOpt j "real" with
     | none => pure Json.null
